@@ -23,7 +23,7 @@ ASSUMPTIONS = [
     "third decimal",
     "sensors whose bytes lie outside the fetched window of a block are C14's subject and skipped here for that block",
 ]
-MUST = ["undecodable_neighbour_in_block", "single_sensor_reads_end_to_end", "sensor_and_setting_of_one_id", "values_checked", "footprint_checked", "noninterference_checked", "sentinel_hit", "shifted_window_checked",
+MUST = ["end_to_end_with_refused_blocks", "undecodable_neighbour_in_block", "single_sensor_reads_end_to_end", "sensor_and_setting_of_one_id", "values_checked", "footprint_checked", "noninterference_checked", "sentinel_hit", "shifted_window_checked",
         "end_to_end_values", "single_read_checked", "sensors_covered"]
 EXHAUSTIVE = {"quick": False, "thorough": False}
 
@@ -212,8 +212,14 @@ def end_to_end(spec, part):
         port = 8899 if fam == "ES" else rnd.choice((8899, 502))
         style = rnd.choice(("random", "mixed", "sentinel"))
         if fam == "ET":
+            # (some firmware refuses optional blocks: after the fallbacks every value still listed is the documented reading of its registers)
+            refused = [b for b in ("meter_ext2", "meter_ext", "mppt", "battery2") if rnd.random() < 0.25]
+            if "meter_ext" in refused and rnd.random() < 0.7:
+                refused.append("meter_ext2")
             sim = models.et_sim(tag=rnd.choice(("ETU", "ETT", "EHU", "BTU")), rated=rnd.choice((5000, 10000, 20000, 30000)),
-                                rnd=rnd, style=style, battery_mode=rnd.choice((0, 1, 2)))
+                                rnd=rnd, style=style, battery_mode=rnd.choice((0, 1, 2)), refused_blocks=sorted(set(refused)))
+            if refused:
+                part.count("end_to_end_with_refused_blocks")
         elif fam == "DT":
             sim = models.dt_sim(tag=rnd.choice(("DTU", "MSU", "DSN")), rnd=rnd, style=style)
         else:
@@ -230,6 +236,18 @@ def end_to_end(spec, part):
         async def flow(loop):
             inv = models.family_cls(g, fam)("inv0", port, 0, 1, 0)
             await inv.read_device_info()
+            inv.sensors()
+            if fam != "ES" and rnd.random() < 0.5:      # an entity is read singly before the first poll (order of calls is the integration's)
+                try:
+                    await inv.read_sensor("vpv1")
+                except ValueError:
+                    pass
+            for attempt in range(4):            # (a poll in which a refused block is discovered may be rejected: C15)
+                try:
+                    res["data"] = await inv.read_runtime_data()
+                    break
+                except g.exceptions.RequestRejectedException:
+                    continue
             res["data"] = await inv.read_runtime_data()
             res["sensors"] = inv.sensors()
             # single reads of a sample of the listed typed sensors (the individual read fetches the item's own registers only)
@@ -238,7 +256,8 @@ def end_to_end(spec, part):
                 cand = [x for x in inv.sensors() if getattr(x, "size_", 0) > 0]
                 rnd.shuffle(cand)
                 big = [x for x in cand if getattr(x, "size_", 0) >= 4][:10]
-                for x in big + cand[:15]:
+                fixed = [x for x in cand if x.id_ in ("meter_e_total_exp", "meter_e_total_imp", "meter_voltage1", "meter2_active_power", "pmppt1")]
+                for x in fixed + big + cand[:15]:
                     try:
                         v = await inv.read_sensor(x.id_)
                     except ValueError:
